@@ -264,3 +264,33 @@ Definition wrapper_rebinding (bound : nat) : list mstmt :=
 (* the handle invariant: the dict every wrapper consults is the dict clear_cache empties *)
 Definition handles_ok (st : mstate) : Prop :=
   forall f w, nth_error (m_ws st) f = Some w -> exists r, w_cell w = Some r /\ w_cache w = Some r /\ r < length (m_dicts st).
+
+(* ------------------------------------------------------------------ the SAME hand model on ONE store: C01.Heap's single [memo] list with
+   [mlookup] / [mstore] / [mclear] -- the store of C01.Model.with_memo and C05.Model.with_memo_e / clear_path (scope 2 = []).  [n] decorated
+   functions; the key of a call to function f carries f ([hop_keyed]: with_memo builds `mkkey f id d v form`). *)
+Definition flat_call (n f : nat) (c : call) (m : memo) : memo * res :=
+  if n <=? f then (m, RStuck) else
+  let through := match c_res c with Some a => RVal a | None => RExc X_FUNC end in
+  if c_mkraise c then (m, through) else
+  if negb (c_hash c) then (m, through) else
+  match mlookup (c_key c) m with
+  | Some a => (m, RVal a)
+  | None =>
+    match c_res c with
+    | Some a => (mstore (c_key c) a m, RVal a)
+    | None => (m, RExc X_FUNC)
+    end
+  end.
+
+Fixpoint flat_hist (n : nat) (h : list hop) (m : memo) : memo * list res :=
+  match h with
+  | [] => (m, [])
+  | HCall f c :: t => let '(m1, r) := flat_call n f c m in let '(m2, rs) := flat_hist n t m1 in (m2, r :: rs)
+  | HClear f :: t => flat_hist n t (mclear f m)
+  | HClearAll :: t => flat_hist n t []
+  end.
+
+Definition hop_keyed (o : hop) : Prop := match o with HCall f c => k_fn (c_key c) = f | _ => True end.
+Definition well_keyed (h : list hop) : Prop := Forall hop_keyed h.
+
+Definition res_of (o : option addr) : res := match o with Some a => RVal a | None => RExc X_FUNC end.
